@@ -694,63 +694,108 @@ func c03RowPrecision(c *core.Ctx) {
 		}
 		info := fd.Pkg.TypesInfo
 		ld := core.NewLocalDefs(info, fd.Decl.Body)
-		var ff *core.FuncFlow
-		ast.Inspect(fd.Decl.Body, func(m ast.Node) bool {
-			call, ok := m.(*ast.CallExpr)
-			if !ok || len(call.Args) != 1 {
+		ff := core.NewFuncFlow(fd)
+		fromCurrency := func(e ast.Expr) bool {
+			s := types.ExprString(ast.Unparen(e))
+			return strings.Contains(s, "Subunits") || strings.Contains(s, "Zero().Exp()") || strings.HasSuffix(s, "zero.Exp()")
+		}
+		// geCur: the exponent expression is known to be at least the currency's decimals where it stands
+		busy := map[*types.Var]bool{}
+		var geCur func(e ast.Expr, at ast.Node, depth int) bool
+		geCur = func(e ast.Expr, at ast.Node, depth int) bool {
+			e = ast.Unparen(e)
+			if depth > 5 {
+				return false
+			}
+			if fromCurrency(e) {
 				return true
 			}
-			fn := core.Callee(info, call)
-			if !isAmountMethod(fn, "RescaleDown") && !isAmountMethod(fn, "Rescale") {
-				return true
-			}
-			ev := core.VarOf(info, call.Args[0])
-			if ev == nil || ev.IsField() {
-				return true
-			}
-			defs := ld.All(ev)
-			if len(defs) == 0 {
-				return true
-			}
-			fromCurrency := func(e ast.Expr) bool {
-				s := types.ExprString(ast.Unparen(e))
-				return strings.Contains(s, "Subunits") || strings.Contains(s, "Zero().Exp()") || strings.HasSuffix(s, "zero.Exp()")
-			}
-			n++
-			bad := ""
-			for _, d := range defs {
-				if d.RHS == nil || fromCurrency(d.RHS) {
-					continue
-				}
-				if call, isCall := ast.Unparen(d.RHS).(*ast.CallExpr); isCall {
-					if id, isId := call.Fun.(*ast.Ident); isId && id.Name == "max" {
-						continue
+			if call, ok := e.(*ast.CallExpr); ok {
+				if id, isId := call.Fun.(*ast.Ident); isId && id.Name == "max" {
+					for _, a := range call.Args {
+						if geCur(a, at, depth+1) {
+							return true
+						}
 					}
 				}
-				// guarded by `<new> > e`
-				if ff == nil {
-					ff = core.NewFuncFlow(fd)
-				}
-				guarded := false
-				if node := ff.Flow.EnclosingNode(d.Stmt); node != nil {
-					rs := types.ExprString(ast.Unparen(d.RHS))
+			}
+			// known larger than something that is
+			if at != nil {
+				if node := ff.Flow.EnclosingNode(at); node != nil {
+					es := types.ExprString(e)
 					for leaf, val := range ff.Flow.CondsAt(node) {
 						be, ok := ast.Unparen(leaf).(*ast.BinaryExpr)
 						if !ok || !val {
 							continue
 						}
 						l, r := types.ExprString(ast.Unparen(be.X)), types.ExprString(ast.Unparen(be.Y))
-						if (be.Op == token.GTR && l == rs && core.VarOf(info, be.Y) == ev) || (be.Op == token.LSS && r == rs && core.VarOf(info, be.X) == ev) {
-							guarded = true
+						switch {
+						case (be.Op == token.GTR || be.Op == token.GEQ) && l == es && geCur(be.Y, nil, depth+1):
+							return true
+						case (be.Op == token.LSS || be.Op == token.LEQ) && r == es && geCur(be.X, nil, depth+1):
+							return true
 						}
 					}
 				}
-				if !guarded {
-					bad = fmt.Sprintf("%s (at %s)", types.ExprString(d.RHS), p.Rel(d.Pos))
+			}
+			if v := core.VarOf(info, e); v != nil && !v.IsField() {
+				if busy[v] {
+					return true // being established: `if x > e { e = x }` compares with e itself
+				}
+				busy[v] = true
+				defer delete(busy, v)
+				defs := ld.All(v)
+				if len(defs) == 0 {
+					return false
+				}
+				for _, d := range defs {
+					if d.RHS == nil {
+						if _, isDecl := d.Stmt.(*ast.ValueSpec); isDecl {
+							continue // `var e uint32`, assigned on every path afterwards
+						}
+						return false
+					}
+					var stmt ast.Node
+					if d.Stmt != nil {
+						stmt = d.Stmt
+					}
+					if !geCur(d.RHS, stmt, depth+1) {
+						return false
+					}
+				}
+				return true
+			}
+			return false
+		}
+		ast.Inspect(fd.Decl.Body, func(m ast.Node) bool {
+			as, ok := m.(*ast.AssignStmt)
+			if !ok || len(as.Lhs) != 1 || len(as.Rhs) != 1 {
+				return true
+			}
+			// presentation rounding in place: x.F = x.F.RescaleDown(e)
+			f := core.FieldOf(info, ast.Unparen(as.Lhs[0]))
+			call, isCall := ast.Unparen(as.Rhs[0]).(*ast.CallExpr)
+			if f == nil || !isCall || len(call.Args) != 1 {
+				return true
+			}
+			fn := core.Callee(info, call)
+			if !isAmountMethod(fn, "RescaleDown") && !isAmountMethod(fn, "Rescale") {
+				return true
+			}
+			if types.ExprString(ast.Unparen(core.RecvExpr(call))) != types.ExprString(ast.Unparen(as.Lhs[0])) {
+				return true
+			}
+			n++
+			key := fmt.Sprintf("%s#%s", fd.Name(), f.Name())
+			arg := ast.Unparen(call.Args[0])
+			if ac, isC := arg.(*ast.CallExpr); isC && !fromCurrency(arg) {
+				if cf := core.Callee(info, ac); cf != nil && core.InModule(cf.Pkg()) && p.DeclOf(cf) != nil {
+					c.Undecided("C03-R9", key, call.Pos(), "the exponent is computed by "+core.FuncName(cf))
+					return true
 				}
 			}
-			c.Ob("C03-R9", fmt.Sprintf("%s#%s", fd.Name(), ev.Name()), call.Pos(), bad == "",
-				fmt.Sprintf("%s lowers the row's amount to an exponent that may be set from %s without being known to exceed the currency's decimals: a row given with a base of fewer decimals than the currency is presented rounded to the base's precision, while the document total it belongs to was summed from the unrounded amount — the presented rows no longer add up to the presented total", fd.Name(), bad))
+			c.Ob("C03-R9", key, call.Pos(), geCur(arg, as, 0),
+				fmt.Sprintf("%s lowers the row's amount to %s, which is not known to be at least the currency's number of decimals (it may come from a base with fewer): a row given with a base of fewer decimals than the currency is presented rounded to the base's precision, while the document total it belongs to was summed from the unrounded amount — the presented rows no longer add up to the presented total", fd.Name(), types.ExprString(arg)))
 			return true
 		})
 	}
